@@ -40,6 +40,8 @@ def judge_validate(o, go, m, compare_targets=True, compare_log=True):
             return "known:" + H[0], "go=%s model=%s outside hypothesis %s" % (gout, mout, H)
         return "violation", "outcome: real package %s (%s), model %s" % (gout, str(go.get("detail"))[:200], mout)
     if gout != "resolved":
+        if exp is not None:
+            return "violation:expected", "by construction every reference designates a subschema, but both the real package and the model report %s (%s)" % (gout, str(go.get("detail"))[:200])
         return "agree", ""
     gv, mv = go.get("verdicts"), mo.get("verdicts")
     if gv != mv:
@@ -47,6 +49,11 @@ def judge_validate(o, go, m, compare_targets=True, compare_log=True):
             return "known:" + H[0], "verdicts differ outside hypothesis %s" % H
         idx = [i for i, (a, b) in enumerate(zip(gv, mv)) if a != b]
         return "violation", "verdicts: real package %r, model %r (instance index %r)" % (gv, mv, idx)
+    sp = m.get("spec")
+    if sp is not None and not H:
+        for i, (a, b) in enumerate(zip(sp, mv)):
+            if a in ("valid", "invalid") and a != b:
+                return "violation:model-vs-spec", "instance %d: spec %s, model %s (theorem mis-stated or model defect)" % (i, a, b)
     if exp is not None:
         ev = ["valid" if e else "invalid" for e in exp]
         if ev != mv:
